@@ -6,7 +6,6 @@ From LJT Require Import gen.GenDctConst model.Quant model.Dct proofs.QuantCert p
   proofs.DctRound proofs.RmsBound proofs.DctOrth proofs.DctAcc.
 Import ListNotations.
 Local Open Scope R_scope.
-Set Default Timeout 120.
 
 Definition vecZ (l : list Z) : nat -> R := fun i => IZR (nth i l 0%Z).
 
@@ -53,22 +52,16 @@ Proof.
   unfold aR, dctA2. replace 8 with (sqrt 8 * sqrt 8) at 3 by (apply sqrt_sqrt; lra). ring.
 Qed.
 
-Theorem fdct_accuracy_proof : forall cf data, cfg_ok cf -> length data = 64%nat ->
-  Forall (inb (centersample cf)) data ->
-  norm2 64 (fun k => vecZ (fdct_islow cf data) k / 8 - ap 64 dctA2 (vecZ data) k) <= e1_bound cf * e1_bound cf.
+Lemma fdct_accuracy_coef : forall cf data j, cfg_ok cf -> length data = 64%nat ->
+  Forall (inb (centersample cf)) data -> (j < 64)%nat ->
+  Rabs (vecZ (fdct_islow cf data) j / 8 - ap 64 dctA2 (vecZ data) j) <= eta8 cf / 8.
 Proof.
-  intros cf data Hok Hlen HF.
+  intros cf data j Hok Hlen HF Hj.
   pose proof (fdct_rounding_error_proof cf data Hok Hlen HF) as HR.
   pose proof (fdct_lin2d_kronecker data Hlen) as HK.
   assert (HlenF : length (fdct_islow cf data) = 64%nat) by (apply fdct_length; exact Hlen).
   assert (Hc0 : 0 <= cmax cf) by (unfold cmax; apply IZR_le; destruct Hok as [[H _]|[H _]]; unfold centersample; rewrite H; vm_compute; discriminate).
-  assert (Hrb : 0 <= IZR (rbound cf)).
-  { apply IZR_le. unfold rbound, sh1. destruct Hok as [[H _]|[H _]]; unfold fpass1; rewrite H; vm_compute; discriminate. }
-  assert (Heta : 0 <= eta8 cf) by (unfold eta8, acc_delta; nra).
-  (* per coefficient *)
-  assert (Hper : forall j, (j < 64)%nat ->
-            Rabs (vecZ (fdct_islow cf data) j / 8 - ap 64 dctA2 (vecZ data) j) <= eta8 cf / 8).
-  { intros j Hj.
+
     pose proof HR as HR'. rewrite HK in HR'.
     pose proof (Forall2_nth _ _ _ 0%Z (lin2_entry data 0) j HR' ltac:(lia)) as Hr. cbv beta in Hr.
     rewrite map_nth, seq_nth in Hr by lia. cbn [Nat.add] in Hr.
@@ -105,20 +98,39 @@ Proof.
       assert (0 <= Rabs (mR (j / 8) (p / 8) * mR (j mod 8) (p mod 8) - aR (j / 8) (p / 8) * aR (j mod 8) (p mod 8))) by apply Rabs_pos.
       unfold acc_delta in *. nra. }
     unfold vecZ at 1. fold Fj.
-    replace (IZR Fj / 8 - ap 64 dctA2 (vecZ data) j)
-      with (((IZR Fj - IZR Lj / 67108864) + (IZR Lj / 67108864 - 8 * ap 64 dctA2 (vecZ data) j)) / 8) by field.
+    set (Aj := ap 64 dctA2 (vecZ data) j) in *. clearbody Aj Fj Lj.
+    replace (IZR Fj / 8 - Aj)
+      with (((IZR Fj - IZR Lj / 67108864) + (IZR Lj / 67108864 - 8 * Aj)) / 8) by field.
     unfold Rdiv at 1. rewrite Rabs_mult. rewrite (Rabs_pos_eq (/ 8)) by lra.
-    assert (Rabs (IZR Fj - IZR Lj / 67108864 + (IZR Lj / 67108864 - 8 * ap 64 dctA2 (vecZ data) j)) <= eta8 cf).
+    assert (Rabs (IZR Fj - IZR Lj / 67108864 + (IZR Lj / 67108864 - 8 * Aj)) <= eta8 cf).
     { eapply Rle_trans; [apply Rabs_triang|]. unfold eta8. lra. }
-    lra. }
+    lra. 
+Qed.
+
+Theorem fdct_accuracy_proof : forall cf data, cfg_ok cf -> length data = 64%nat ->
+  Forall (inb (centersample cf)) data ->
+  norm2 64 (fun k => vecZ (fdct_islow cf data) k / 8 - ap 64 dctA2 (vecZ data) k) <= e1_bound cf * e1_bound cf.
+Proof.
+  intros cf data Hok Hlen HF.
+  pose proof (fdct_rounding_error_proof cf data Hok Hlen HF) as HR.
+  pose proof (fdct_lin2d_kronecker data Hlen) as HK.
+  assert (HlenF : length (fdct_islow cf data) = 64%nat) by (apply fdct_length; exact Hlen).
+  assert (Hc0 : 0 <= cmax cf) by (unfold cmax; apply IZR_le; destruct Hok as [[H _]|[H _]]; unfold centersample; rewrite H; vm_compute; discriminate).
+  assert (Hrb : 0 <= IZR (rbound cf)).
+  { apply IZR_le. unfold rbound, sh1. destruct Hok as [[H _]|[H _]]; unfold fpass1; rewrite H; vm_compute; discriminate. }
+  assert (Heta : 0 <= eta8 cf) by (unfold eta8, acc_delta; nra).
+  assert (Hper : forall j, (j < 64)%nat ->
+            Rabs (vecZ (fdct_islow cf data) j / 8 - ap 64 dctA2 (vecZ data) j) <= eta8 cf / 8)
+    by (intros j Hj; apply fdct_accuracy_coef; assumption).
   (* sum of 64 squares *)
   unfold norm2, dot, e1_bound.
   eapply Rle_trans.
   - apply (rsum_le 64 _ (fun _ => (eta8 cf / 8) * (eta8 cf / 8))). intros j Hj. specialize (Hper j Hj).
     set (t := vecZ (fdct_islow cf data) j / 8 - ap 64 dctA2 (vecZ data) j) in *.
-    assert (0 <= Rabs t) by apply Rabs_pos. rewrite <- (Rabs_mult t t). rewrite Rabs_mult. nra.
-  - assert (E : rsum 64 (fun _ => eta8 cf / 8 * (eta8 cf / 8)) = 64 * (eta8 cf / 8 * (eta8 cf / 8))).
-    { rewrite <- (Rmult_1_r (eta8 cf / 8 * (eta8 cf / 8))) at 1. rewrite (rsum_ext 64 _ (fun _ => (eta8 cf / 8 * (eta8 cf / 8)) * 1)) by (intros; ring).
-      rewrite rsum_scal. f_equal. cbn [rsum]. ring. }
-    rewrite E. right. field.
+    assert (0 <= Rabs t) by apply Rabs_pos.
+    assert (Hsq : t * t = Rabs t * Rabs t) by (unfold Rabs; destruct (Rcase_abs t); ring).
+    clearbody t. rewrite Hsq. assert (0 <= eta8 cf / 8) by lra. nra.
+  - assert (E : forall n c, rsum n (fun _ => c) = INR n * c).
+    { induction n as [|n IHn]; intros c; [simpl; ring|]. cbn [rsum]. rewrite IHn, S_INR. ring. }
+    rewrite E. replace (INR 64) with 64 by (simpl; lra). right. field.
 Qed.
